@@ -352,6 +352,42 @@ def check_foreign_signal_leaves_exit(check, an: Analysis, rule: str):
                        analysed=n)
 
 
+def check_failure_is_kept_as_raised(check, an: Analysis, rule: str):
+    """a task that fails keeps the very exception object its payload raised: on every path
+    of the wrapper that reports a failure to the scope, the error component of the stored
+    result is the exception bound by the handler that caught it (no copy, no substitute)"""
+    wrapper = wrapper_callee(an)
+    n, bad = 0, None
+    for path in an.paths(wrapper):
+        for index, event in enumerate(path.events):
+            if not (event.kind in ('call', 'enter') and is_call_to(event, '__child_finished__')
+                    and isinstance(event.node, ast.Call)):
+                continue
+            failed = [kw.value for kw in event.node.keywords if kw.arg == 'failed'] or \
+                list(event.node.args[1:2])
+            if not failed or rules.value_text(path, index, failed[0]) != 'True':
+                continue
+            n += 1
+            caught = [e for e in path.events[:index] if e.kind == 'handler'
+                      and e.fn is wrapper.fn]
+            stores = [(i, e) for i, e in enumerate(path.events)
+                      if e.kind == 'store' and e.get('path') == 'self._result'
+                      and e.fn is wrapper.fn and e.data.get('value') is not None]
+            name = getattr(caught[-1].node, 'name', None) if caught else None
+            ok = bool(stores) and name is not None
+            if ok:
+                position, store = stores[-1]
+                kept = rules.value_expr(path, position, store.data['value'])
+                ok = isinstance(kept, ast.Tuple) and len(kept.elts) == 2 and \
+                    ast.unparse(kept.elts[1]) == name
+            if not ok:
+                bad = bad or (path, index)
+    check.instance(rule, 'wrapper:failure-kept-as-raised', bad is None and n > 0,
+                   where_fn(wrapper.fn), 'the result of a failed task is (None, <the '
+                   'exception the handler caught>) on each of %d failure reports' % n,
+                   path=rules.path_lines(*bad) if bad else None, analysed=n)
+
+
 def check_disable_interrupts(check, an: Analysis, rule: str):
     """
     whatever class the scope has, every way through its ``_disable_interrupts`` (the first
